@@ -98,7 +98,7 @@ Section Inval.
     unfold u_quiet in Q. apply andb_true_iff in Q. destruct Q as [_ Q4]. cbn [po_cons pobs_of] in Q4. rewrite forallb_map, forallb_forall in Q4.
     specialize (Q4 x (nth_error_In _ _ Ex)). unfold ccode6 in *.
     destruct (ww_firepc x) as [[|]|]; destruct Hok as [O1 O2].
-    - destruct (cpcv x); discriminate Q4.
+    - destruct (ac_wpark x); destruct (cpcv x); discriminate Q4.
     - rewrite O2. destruct (cpcv x); reflexivity.
     - congruence.
   Qed.
